@@ -1,5 +1,6 @@
 import PyGam.Model.Predict
 import PyGam.Proofs.Vec
+import PyGam.Proofs.Mesh
 import Mathlib.Algebra.Order.Field.Basic
 import Mathlib.Tactic.FieldSimp
 import Mathlib.Tactic.Ring
@@ -191,10 +192,34 @@ theorem grid_tensor_two (a b : Marg α) (by_ : Option Nat) (n r : Nat) (hr : r <
   · simp [gridRow, gridRowTensor, gridRowTensor.go, hba, hab, Nat.mod_eq_of_lt hdiv]
   · simp [gridRow, gridRowTensor, gridRowTensor.go, hbb, Ne.symm hab]
 
+/-- **general k-way tensor term**: with pairwise different marginal features (and a by-variable that is not one of
+them), row `r` of the `n^k` mesh (`indexing='ij'`, flattened row-major) holds, in the column of marginal `j`, grid point
+number `(r / n^(k-1-j)) % n` of that marginal's `linspace(e0, e1, n)` -/
+theorem grid_tensor_general (ms : List (Marg α)) (by_ : Option Nat) (n r j : Nat) (hj : j < ms.length)
+    (hnd : (ms.map (·.feature)).Nodup) (hby : by_ ≠ some ms[j].feature) :
+    gridRow (Term.tensor ms by_) n r ms[j].feature
+      = linspacePt ms[j].e0 ms[j].e1 n (meshDigit n ms.length j r) := by
+  have hsplit : ms.take j ++ ms[j] :: ms.drop (j+1) = ms := by
+    rw [List.getElem_cons_drop, List.take_append_drop]
+  have h := grid_tensor_split (ms.take j) ms[j] (ms.drop (j+1)) by_ n r (by rw [hsplit]; exact hnd) hby
+  rw [hsplit] at h
+  rw [h, List.length_take, Nat.min_eq_left (Nat.le_of_lt hj)]
+  rfl
+
+/-- the mesh is the full Cartesian product, each combination of grid points exactly once: the `k` digits of a row
+are below `n`, two rows below `n^k` with the same digits are the same row, and every digit combination occurs -/
+theorem mesh_digit_lt (n k j r : Nat) (hn : 0 < n) : meshDigit n k j r < n := meshDigit_lt n k j r hn
+theorem mesh_rows_distinct (n k r r' : Nat) (hn : 0 < n) (hr : r < n ^ k) (hr' : r' < n ^ k)
+    (h : ∀ j, j < k → meshDigit n k j r = meshDigit n k j r') : r = r' := mesh_digits_inj n k r r' hn hr hr' h
+theorem mesh_covers (n k : Nat) (hn : 0 < n) (d : Nat → Nat) (hd : ∀ j, j < k → d j < n) :
+    ∃ r, r < n ^ k ∧ ∀ j, j < k → meshDigit n k j r = d j := mesh_digits_surj n k hn d hd
+
 end grids
 
 /-! ### non-vacuity -/
 example : linspacePt (0:ℚ) 1 5 2 = 1/2 := by decide +kernel
 example : linspacePt (3:ℚ) 7 1 0 = 3 := by decide +kernel
+-- 3-way mesh of 4 points per axis: row 27 = (1, 2, 3)
+example : (meshDigit 4 3 0 27, meshDigit 4 3 1 27, meshDigit 4 3 2 27) = (1, 2, 3) := by decide
 
 end PyGam.C02
